@@ -9,6 +9,7 @@ Model = the code after the `fix:` commits (explicit `pending` flag in `ValueBack
 skipped, responses for removed remotes discarded).
 -/
 import SwimVerif.Proofs.NoFab
+import SwimVerif.Proofs.LinkLangStop
 
 set_option linter.unusedVariables false
 namespace SwimVerif.WT
@@ -131,52 +132,116 @@ theorem C04_unlinked_discards_pending (u : Uplinks) (reg : Registry) (l : Nat) (
 theorem C04_lane_not_found_frame (reg : Registry) (name : Nat) :
     specialWrite reg (.laneNotFound name) = ⟨some name, [.unlinked .notFound], none⟩ := rfl
 
-/-! Open (tied by correspondence + monitor only): the per-(remote, lane) frame language
-`(linked (event | synced)* unlinked)*` of the whole write task. `WT.Mon` is the decidable predicate run over
-implementation traces; the statement below is its core over the structured model trace. -/
+/-! ### The per-(remote, lane) frame language `(linked (event | synced)* unlinked)*` of the whole write task
 
-def frameOk (isOpen : Bool) : Note → Option Bool
-  | .linked => some true
-  | .unlinked .notFound => some isOpen
-  | .unlinked _ => if isOpen then some false else none
-  | .synced => if isOpen then some true else none
-  | .event _ => if isOpen then some true else none
+`langOk` (in `Proofs/LinkLang.lean`, with `frameOk`, `langFrames`, `wellFormed`, `lanesFresh`) is the core of
+`WT.Mon`, the decidable predicate run over implementation traces, over the structured model trace: frames come
+out of `done r` steps; per key `r * 100000 + name` a `linked` opens, `event` / `synced` / `unlinked` need an open
+key, `unlinked` closes, an `@laneNotFound` answer is allowed in any state and changes nothing. -/
 
-def langFrame (st : List (Nat × Bool)) (r : Nat) (f : Option Nat × Note) : Option (List (Nat × Bool)) :=
-  match f.1 with
-  | none => none
-  | some name => (frameOk ((alGet st (r * 100000 + name)).getD false) f.2).map (alSet st (r * 100000 + name))
-
-def langFrames (st : List (Nat × Bool)) (r : Nat) : List (Option Nat × Note) → Option (List (Nat × Bool))
-  | [] => some st
-  | f :: fs => match langFrame st r f with
-    | some st' => langFrames st' r fs
-    | none => none
-
-/-- Frames come out of `done r` steps only. -/
-def langOk : St → List (Nat × Bool) → List Ev → Bool
-  | _, _, [] => true
-  | s, st, e :: rest =>
-    let x := step s e
-    match e with
-    | .done r _ => (match langFrames st r x.2.frames with
-      | some st' => langOk x.1 st' rest
-      | none => false)
-    | _ => langOk x.1 st rest
-
-/-- Events refer to registered lanes and a remote id is attached at most once. -/
-def wellFormed : St → List Nat → List Ev → Bool
-  | _, _, [] => true
-  | s, seen, e :: rest =>
-    (match e with
-      | .event lane _ _ => decide (lane < s.reg.length)
-      | .laneFailed lane => decide (lane < s.reg.length)
-      | .attach r => !seen.contains r
-      | _ => true) &&
-    wellFormed (step s e).1 (match e with | .attach r => r :: seen | _ => seen) rest
-
-def C04_link_language_open : Prop :=
+/-- Full statement as first written: every well-formed event sequence is accepted. -/
+def C04_link_language : Prop :=
   ∀ (evs : List Ev), wellFormed {} [] evs = true → langOk {} [] evs = true
+
+/-- It is false of the model for inputs the statement does not exclude: (i) the same lane NAME registered twice
+(two lane ids share the frames' name: unlinking one closes the key while the other is still linked). The real
+`WriteTaskState` shows the same behaviour (harness replay `lane 6 0; lane 6 0; attach 0; ev 0 0 val:01; done 0 ok;
+done 0 ok; link 0 6; done 0 ok; unlink 0 6; done 0 ok; ev 0 0 val:02; done 0 ok` ⇒ frames `6:linked 6:ev:01
+6:linked 6:unl:closed 6:ev:02`, monitor `event-outside-link`): `LaneRegistry::add_endpoint` accepts a name twice
+(`id_for` then answers the LAST id — the model's `idFor` the first, so model and code differ on such inputs);
+duplicate names are rejected above the runtime (`AgentInitError::DuplicateLane` in `swimos_agent`), not by it; … -/
+theorem C04_link_language_fails : ¬ C04_link_language := by
+  intro h
+  have := h [.lane 5 false, .lane 5 false, .attach 0, .event 1 (some 0) (.value [1]), .done 0 true, .done 0 true,
+    .link 0 5, .done 0 true, .unlink 0 5, .done 0 true, .event 1 (some 0) (.value [2]), .done 0 true] (by decide)
+  revert this
+  decide
+
+/-- … (ii) a lane name ≥ 100000 collides with another remote's key in the checker's own encoding
+`r * 100000 + name` (an artefact of the checker, not of the write task). -/
+theorem C04_link_language_fails_key_collision :
+    wellFormed {} [] [.lane 100000 false, .lane 0 false, .attach 0, .attach 1, .link 0 100000, .done 0 true,
+      .link 1 0, .done 1 true, .unlink 0 100000, .done 0 true, .event 1 (some 1) (.value [2]), .done 1 true] = true ∧
+    langOk {} [] [.lane 100000 false, .lane 0 false, .attach 0, .attach 1, .link 0 100000, .done 0 true,
+      .link 1 0, .done 1 true, .unlink 0 100000, .done 0 true, .event 1 (some 1) (.value [2]), .done 1 true] = false := by
+  decide
+
+/-- **Link language** (corrected statement): for every event sequence that is well formed (events name
+registered lanes, a remote id is attached at most once) and registers every lane name at most once, below the
+checker's key modulus (`lanesFresh`), the frames sent to each remote on each lane are accepted by the checker:
+`linked` before events, nothing after `unlinked` until relinked, `synced` only while linked, unknown lane ⇒
+`@laneNotFound` only. Proved by the inductive invariant `GInv` (`Proofs/LinkLangGInv.lean`): for every attached
+remote and lane name, write in flight ++ special queue is accepted from the key's current state and ends open
+whenever `Links` says linked or data are still buffered for the lane. -/
+theorem C04_link_language_partial (evs : List Ev) (hw : wellFormed {} [] evs = true)
+    (hf : lanesFresh {} evs = true) : langOk {} [] evs = true :=
+  langOk_of_ginv evs {} [] [] ginv_init hw hf
+
+/-- Non-vacuity: two remotes, three lanes, link / events with a busy writer / unlink + relink while data are
+buffered / unknown lane / lane failure / failed write / stop — well formed, fresh, and frames are delivered. -/
+example : wellFormed {} [] [.lane 0 true, .lane 1 false, .lane 2 false, .attach 0, .attach 1, .link 0 0, .link 1 0,
+    .event 0 none (.value [1]), .event 0 none (.value [2]), .done 0 true, .unlink 0 0, .link 0 0,
+    .event 0 (some 0) (.synced .value), .unknown 1 7, .done 0 true, .done 0 true, .done 1 true, .done 0 true,
+    .event 2 (some 1) (.map (.upd 1 [3])), .laneFailed 0, .done 1 true, .done 1 false, .stop, .done 0 true] = true ∧
+  lanesFresh {} [.lane 0 true, .lane 1 false, .lane 2 false, .attach 0, .attach 1, .link 0 0, .link 1 0,
+    .event 0 none (.value [1]), .event 0 none (.value [2]), .done 0 true, .unlink 0 0, .link 0 0,
+    .event 0 (some 0) (.synced .value), .unknown 1 7, .done 0 true, .done 0 true, .done 1 true, .done 0 true,
+    .event 2 (some 1) (.map (.upd 1 [3])), .laneFailed 0, .done 1 true, .done 1 false, .stop, .done 0 true] = true := by
+  decide
+
+/-! ### T2 statements over the whole write task (reachable states of well-formed runs)
+
+`pend reg up inflight n` (`Proofs/LinkLangRemote.lean`) = the notes already owed to a remote for lane name `n`:
+those of the write in flight followed by those of the special queue, in sending order. -/
+
+/-- **Unknown lane ⇒ exactly one `unlinked @laneNotFound`**: in every reachable state, an unknown-lane request
+of an attached remote schedules exactly the write `name : [unlinked @laneNotFound]` if the remote's writer is
+idle, and otherwise appends exactly one `laneNotFound name` to its special queue (sent as that one frame when it
+is popped: `C04_specials_preempt`, `C04_lane_not_found_frame`); the remote's buffers and write queue are
+untouched. -/
+theorem C04_unknown_lane_one_unlinked (evs : List Ev) (hw : wellFormed {} [] evs = true)
+    (hf : lanesFresh {} evs = true) (r name : Nat) (rem : Remote) (hg : (run {} evs).remote? r = some rem) :
+    ∃ rem', (step (run {} evs) (.unknown r name)).1.remote? r = some rem' ∧
+      rem'.up.value = rem.up.value ∧ rem'.up.supply = rem.up.supply ∧ rem'.up.map = rem.up.map ∧
+      rem'.up.writeQueue = rem.up.writeQueue ∧
+      ((rem.inflight = none ∧ rem'.inflight = some ⟨some name, [Note.unlinked .notFound], none⟩ ∧
+          rem.up.specialQueue = [] ∧ rem'.up.specialQueue = []) ∨
+       (rem.inflight ≠ none ∧ rem'.inflight = rem.inflight ∧
+          rem'.up.specialQueue = rem.up.specialQueue ++ [.laneNotFound name])) := by
+  obtain ⟨st, seen, h⟩ := ginv_run evs {} [] [] ginv_init hw hf
+  exact unknown_lane_of_ginv h r name rem hg
+
+/-- … and when that write completes, exactly the one frame reaches the remote. -/
+theorem C04_lane_not_found_delivered (s : St) (r name : Nat) (rem : Remote) (hg : s.remote? r = some rem)
+    (hi : rem.inflight = some ⟨some name, [Note.unlinked .notFound], none⟩) :
+    (step s (.done r true)).2.frames = [(some name, Note.unlinked .notFound)] := by
+  simp [step, hg, hi]
+
+/-- **Stop closes all**: in every reachable state, after `unlink_all` no (remote, lane) is linked any more, and
+for every attached remote and every registered lane what is owed on the lane's name has grown by exactly one
+`unlinked` if the remote was linked to the lane — and is unchanged if it was not. (That everything owed is then
+sent and accepted by the checker is `C04_link_language_partial`.) -/
+theorem C04_stop_closes_all (evs : List Ev) (hw : wellFormed {} [] evs = true) (hf : lanesFresh {} evs = true) :
+    (∀ r l, (step (run {} evs) .stop).1.links.isLinked r l = false) ∧
+    (∀ r rem, (run {} evs).remote? r = some rem →
+      ∃ rem', (step (run {} evs) .stop).1.remote? r = some rem' ∧
+        ∀ l n, (run {} evs).reg.nameFor l = some n →
+          pend (run {} evs).reg rem'.up rem'.inflight n =
+            pend (run {} evs).reg rem.up rem.inflight n ++
+              (if (run {} evs).links.isLinked r l = true then [Note.unlinked .none] else [])) := by
+  obtain ⟨st, seen, h⟩ := ginv_run evs {} [] [] ginv_init hw hf
+  exact stop_closes_all_of_ginv h
+
+/-- Non-vacuity: remote 0 linked to lanes 0 and 1 (a `linked` still in flight), remote 1 to lane 1 only; after
+stop remote 0 is owed `linked, unlinked` on lane 0 and both are owed one `unlinked` on lane 1. -/
+example : let s := (step (run {} [.lane 0 false, .lane 1 false, .attach 0, .attach 1, .link 0 0, .link 0 1, .link 1 1,
+      .done 1 true]) .stop).1
+    ((s.remote? 0).map (fun rem => (pend s.reg rem.up rem.inflight 0, pend s.reg rem.up rem.inflight 1)),
+     (s.remote? 1).map (fun rem => (pend s.reg rem.up rem.inflight 0, pend s.reg rem.up rem.inflight 1))) =
+    (some ([.linked, .unlinked .none], [.linked, .unlinked .none]), some ([], [.unlinked .none])) := by
+  decide
+example : ((step (run {} [.lane 0 false, .attach 0, .link 0 0]) (.unknown 0 9)).1.remote? 0).map
+    (fun rem => rem.up.specialQueue) = some [.laneNotFound 9] := by decide
 
 /-! Non-vacuity -/
 example : (ureach [0] [.push 0 (.value [1]), .push 0 (.value [2]), .done]).inflight.isSome = true := by decide
